@@ -54,7 +54,8 @@ def summary(W, p):
         return n if n in p.known else "<dyn>"
 
     tasks = sorted((nid_of(t["nid"]), t["kind"], t["state"]) for t in p.tasks())
-    msgs = sorted((m["type"], nid_of(m["nid"]), m["state"], m["key"] if m["nid"] in p.known else "") for m in W.messages if m["pid"] == p.pid)
+    msgs = sorted((m["type"], nid_of(m["nid"]), m["state"], m["key"] if m["nid"] in p.known else "", repr((m.get("inputs") or {}).get("params")),
+                   repr(sorted((k, repr(v)) for k, v in (m.get("outputs") or {}).items()))) for m in W.messages if m["pid"] == p.pid)
     evs = [(e[0], e[1]["state"], repr(sorted((e[1].get("outputs") or {}).items()))) for e in W.events if e[1]["pid"] == p.pid]
     return dict(tasks=tasks, messages=msgs, events=evs)
 
@@ -120,6 +121,40 @@ class Driver:
         W.drain()
         return r
 
+    def actions_for(self, p, t):
+        """Client actions for an open act: the scenario's pre-actions, then complete."""
+        from .flow import kids
+
+        def find(n):
+            if n.get("id") == t["nid"]:
+                return n
+            for k2, c, _ in kids(n):
+                r = find(c)
+                if r:
+                    return r
+            return None
+
+        node = find(p.model) or {}
+        done = getattr(p, "_pre_done", set())
+        acts = []
+        if t["tid"] not in done:
+            acts += [(k, o) for k, o in (node.get("_pre_actions") or [])]
+        ans = dict((node.get("_answer") or {}))
+        for k in (node.get("outputs") or {}):
+            ans.setdefault(k, 1)
+        acts.append(("Next", ans))
+        return acts
+
+    def do(self, W, p, t, kind, opts):
+        r = W.action(p.pid, t["tid"], kind, opts)
+        p.live()
+        done = getattr(p, "_pre_done", set())
+        done.add(t["tid"])
+        p._pre_done = done
+        self.log.append(("answer" if kind == "Next" else "action:" + kind, p.name, t["nid"] if t["nid"] in p.known else "<dyn>", None if r is None else r.d == 0, self.phase, opts))
+        W.drain()
+        return r
+
     def open_irqs(self, p):
         return [t for t in p.tasks() if t["kind"] == "Act" and t["state"] == "Interrupt"]
 
@@ -152,7 +187,8 @@ def reload_path(I, res, prop, scen_name, max_evictions):
         n += 1
         t = irqs[0]
         order.append(t["nid"] if t["nid"] in pa.known else "<dyn>")
-        d.answer(WA, pa, t)
+        for kind, opts in d.actions_for(pa, t):
+            d.do(WA, pa, t, kind, opts)
     sa = summary(WA, pa)
     # run B: same script, evict + reload at chosen quiescent points
     d.phase = "together"
@@ -166,13 +202,15 @@ def reload_path(I, res, prop, scen_name, max_evictions):
         irqs = d.open_irqs(pb)
         if not irqs or pb.done():
             break
-        if evictions < max_evictions and I.path.choose(2, "evict?") == 1:
-            d.evict(WB, pb)
-            evictions += 1
-            where.append(n)
         n += 1
         t = irqs[0]
-        r = d.answer(WB, pb, t)
+        r = None
+        for kind, opts in d.actions_for(pb, t):
+            if evictions < max_evictions and I.path.choose(2, "evict?") == 1:
+                d.evict(WB, pb)
+                evictions += 1
+                where.append(n)
+            r = d.do(WB, pb, t, kind, opts)
         if r is None or r.d != 0:
             d.viol("reload:action-rejected-after-reload" if evictions else "action-rejected", "completing %s was rejected%s: %s" % (t["nid"], " after a reload" if evictions else "",
                                                                                                                                   WB.py(r.f[0]) if r is not None else WB.panics[-1:]))
@@ -275,7 +313,8 @@ def _real_summary(obs, known, pid_index=0):
     p = obs["procs"][pid_index]
     nid_of = lambda n: n if n in known else "<dyn>"
     tasks = sorted((nid_of(t["nid"]), t["kind"], t["state"]) for t in p["tasks"])
-    msgs = sorted((m["type"], nid_of(m["nid"]), m["state"], m["key"] if m["nid"] in known else "") for m in obs["messages"] if m["pid"] == p["pid"])
+    msgs = sorted((m["type"], nid_of(m["nid"]), m["state"], m["key"] if m["nid"] in known else "", repr((m.get("inputs") or {}).get("params")),
+                   repr(sorted((k, repr(v)) for k, v in (m.get("outputs") or {}).items()))) for m in obs["messages"] if m["pid"] == p["pid"])
     evs = [(e[0], e[1]["state"]) for e in obs["events"] if e[1]["pid"] == p["pid"]]
     return dict(tasks=tasks, messages=msgs, events=evs)
 
@@ -297,8 +336,10 @@ def confirm_reload(v, scen_name):
             if e[0] == "evict":
                 if with_evict:
                     steps.append({"op": "uncache", "pid_index": 0})
-            elif e[0] == "answer":
-                st = {"op": "action", "kind": "next", "nid": e[2], "occurrence": 0, "options": {}}
+            elif e[0] == "answer" or e[0].startswith("action:"):
+                from .replay import snake
+                kind = "next" if e[0] == "answer" else snake(e[0].split(":")[1])
+                st = {"op": "action", "kind": kind, "nid": e[2], "occurrence": 0, "options": (e[5] if len(e) > 5 else {})}
                 if e[2] == "<dyn>":
                     st = {"op": "answer_all", "max": 1, "options": {}}
                 steps.append(st)
